@@ -13,7 +13,7 @@ package codes
 //@   props C16 C08 C10
 //@   ensures forall t string :: contains(result, t) <==> inHier(t, code)
 //@   assigns nothing
-//@   loop 1 invariant len($yielded) == $i && (forall k int :: 0 <= k && k < $i ==> $yielded[k] == checkList[k])
+//@   loop 1 invariant len($yielded) == $i && (forall k int :: 0 <= k && k < $i ==> $yielded[k] == $seq[k])
 //@   loop 1 invariant !$stopped
 
 // GetDocumentationURL: the page of the category of the code.
